@@ -96,3 +96,38 @@ CONTRACTS[TM + "numba_build_skip_grams"] = dict(
         "for#6": dict(invariant=["len(coo_data) == n_windows"]),
     },
 )
+
+# ---------------------------------------------------------------- multiset variant (one document = a list of multisets)
+MS = "vectorizers/multi_token_cooccurence_vectorizer.py::"
+_LENS = "[len(m) for m in multi_window]"
+_MW = ["len(windows) == i and len(kernels) == i", "forall(0, i, lambda t: len(kernels[t]) == len(windows[t]))"]
+CONTRACTS[MS + "numba_build_multi_skip_grams"] = dict(
+    params=dict(token_sequences="list[int[]]", window_size_array="int[,]", window_reversals="bool[]", kernel_functions="funcs", kernel_args="opaque",
+                mix_weights="real[]", normalize_windows="bool", n_unique_tokens="int", array_lengths="int[]"),
+    symbolic_consts={"COO_QUICKSORT_LIMIT": "int; COO_QUICKSORT_LIMIT >= 1"},
+    # a multiset kernel returns one weight per element of the flattened window
+    func_params={"kernel_functions": dict(returns="real[]", ensures=["len(ret) == psum([len(m) for m in arg0], len(arg0))"])},
+    local_types=dict(kernels="list[real[]]", windows="list[int[]]"),
+    abstract_macros=["WF"],
+    ghost_after=[("@assign:coo_data", 1, "intro_all('WF', coo_data)\nassert forall(0, n_windows, lambda c: coo_data[c].ind[0] == 0 and len(coo_data[c].key) >= 2)"),
+                 ("@assign:result_len", 1, "lemma(psum_monotone(%s))" % _LENS)],
+    requires=[
+        "n_unique_tokens >= 1", "window_size_array.shape[1] >= 1",
+        "len(window_reversals) == len(window_size_array) and len(mix_weights) == len(window_size_array) and len(array_lengths) == len(window_size_array)",
+        "forall(0, window_size_array.shape[0], lambda a: forall(0, window_size_array.shape[1], lambda b: window_size_array[a, b] >= 0))",
+        "forall(0, len(array_lengths), lambda a: array_lengths[a] >= 2)",
+    ],
+    ensures=["len(result) == len(window_size_array)"],
+    loops={
+        "for#1": dict(invariant=[_COO_INV]),
+        "for#2": dict(invariant=[_COO_INV]),
+        "for#3": dict(invariant=[_COO_INV] + _MW),
+        "for#4": dict(invariant=["result_len == psum(%s, _k_for4)" % _LENS]),
+        "for#5": dict(invariant=["j == psum(%s, _k_for5)" % _LENS, "len(this_window) == result_len and result_len == psum(%s, len(multi_window))" % _LENS]),
+        "for#6": dict(invariant=["j == psum(%s, _k_for5) + _k_for6" % _LENS, "len(this_window) == result_len and result_len == psum(%s, len(multi_window))" % _LENS]),
+        "for#7": dict(invariant=[_COO_INV, "len(windows) == n_windows and len(kernels) == n_windows", "forall(0, n_windows, lambda t: len(kernels[t]) == len(windows[t]))"]),
+        "for#8": dict(invariant=[_COO_INV, "len(windows) == n_windows and len(kernels) == n_windows", "forall(0, n_windows, lambda t: len(kernels[t]) == len(windows[t]))",
+                                 "len(this_ker) == len(window)"]),
+        "for#9": dict(invariant=["len(coo_data) == n_windows"]),
+    },
+)
